@@ -286,3 +286,26 @@ Example c07_concurrent_example :
             seq_run [rc_q; rc_q; rc_q_id] [rc_g; rc_h] [1;2;0]%nat
               = ([(1%nat, Some rc_g); (2%nat, Some rc_h); (0%nat, None)], []).
 Proof. eexists. split; [vm_compute; reflexivity|]. vm_compute. auto. Qed.
+
+(* ---- expiry at login time (docs/C05.md: a key whose grants have all expired is still admitted
+   as the user).  Such a session is inert: every action a grant-admitted session starts at clock
+   value t has a grant, handed to it at login, whose window [start, exp) contains t.  So a session
+   all of whose grants are expired (or not yet effective) at t starts nothing at t. ---- *)
+Theorem c07_start_needs_grant_in_window : forall parse ops pre sid a t used post u k ags,
+    trace parse ops = pre ++ EvStart sid a t used :: post ->
+    login_of pre sid = Some (u, k, ViaGrant ags) ->
+    exists g, In g ags /\ (g_start g <= t < g_exp g)%Z.
+Proof. exact start_needs_grant_in_window. Qed.
+Print Assumptions c07_start_needs_grant_in_window.
+
+(* non-vacuity: a login with one grant [10,20) and requests at 20 and 30 (refused), 9 (refused), 19 (started) *)
+Example c07_expired_session_example :
+  trace no_parse [OSetFile alice FMissing; OEnable true; OAddGrant (Some (mkIntent 2 10 20 alice 7 ls));
+                  OLogin alice 7; OExec 0 ls false 20; OExec 0 ls false 30; OPF 0 30; OExec 0 ls false 9;
+                  OExec 0 ls false 19]
+  = [EvSetFile alice FMissing; EvEnable true; EvAdded (mkGrant 0 2 10 20 ls no_session) alice 7;
+     EvLogin 0 alice 7 (ViaGrant [mkGrant 0 2 10 20 ls no_session]);
+     EvRefuse 0 (AExec ls false) 20; EvRefuse 0 (AExec ls false) 30; EvRefuse 0 APF 30;
+     EvRefuse 0 (AExec ls false) 9;
+     EvStart 0 (AExec ls false) 19 (Some (mkGrant 0 2 10 20 ls no_session))].
+Proof. vm_compute. reflexivity. Qed.
